@@ -202,6 +202,7 @@ pub fn c08() -> PropDef {
         adjust: no_adjust,
         assumptions: COMMON_ASSUMPTIONS,
         tiny: no_tiny,
+        long: None,
     }
 }
 
@@ -441,5 +442,6 @@ pub fn c11() -> PropDef {
         adjust: adjust_c11,
         assumptions: COMMON_ASSUMPTIONS,
         tiny: no_tiny,
+        long: None,
     }
 }
